@@ -1430,7 +1430,11 @@ class C37(Spec):
     def make_case(self, seed, tier):
         from .families import npfam
         rng = random.Random(f'C37/{seed}')
-        cfg = sample_cfg(rng, tier, m_max=3 if tier == 'quick' else 5)
+        if seed % 5 == 4:
+            # the array protocols draw their masks in _np_randoms as sums of binom(m, t) PRSS terms: larger m matter
+            cfg = sample_cfg(rng, tier, m_min=4, m_max=7)
+        else:
+            cfg = sample_cfg(rng, tier, m_max=3 if tier == 'quick' else 5)
         prog = npfam.gen(rng, cfg, tier, kf={13: ('update',), 17: ('scalar_left_cmp',)}.get(seed % 20, ()),
                          effects=(seed % 3 == 0))
         return {'family': 'np', 'cfg': cfg.to_json(), 'prog': prog, 'seed': seed, 'opts': {'step_cap': 3000000}}
@@ -1554,7 +1558,7 @@ class C18(Spec):
     level_text = ('weak statistical evidence by design: detects missing, reused or grossly short masks (mask shorter than '
                   'about log2(N) bits of the k required); it cannot certify statistical distance 2^-k, which would need far '
                   'more than 2^k samples')
-    quick = {'runs': 10000, 'wall': 85}
+    quick = {'runs': 10800, 'wall': 85}
     thorough = {'runs': 3000000, 'wall': 900}
     expected_probes = ('internal_openings', 'prss_evaluations')
     rule = ('one evaluation = one simulated 3..5-party run of a small template program (comparison, lsb, mod, to_bits, '
@@ -1576,6 +1580,10 @@ class C18(Spec):
         ('to_bits-low4', 'int', {'l': 64}, (5, 5 + (1 << 60)), [['to_bits', ['r'], ['a'], {'l': 4}]]),
         ('to_bits-low1-neg', 'int', {'l': 64}, (-3, -3 - (1 << 62)), [['to_bits', ['r'], ['a'], {'l': 1}]]),
         ('trailing_zeros-low8', 'int', {'l': 64}, (1, 1 + (1 << 62)), [['trailing_zeros', ['r'], ['a'], {'l': 8}]]),
+        # conversion to a longer and to a shorter integer type: the mask added before the value is opened in _convert
+        ('convert-32-64', 'int', {'l': 32}, (5, 5 + (1 << 30)), [['convert_int', ['r'], ['a'], {'l': 64}]]),
+        # (to a shorter type the value has to fit the target, so the mask covers min(64, 32) + k bits: mask_l)
+        ('convert-64-32', 'int', {'l': 64, 'mask_l': 32}, (5, 5 + (1 << 30)), [['convert_int', ['r'], ['a'], {'l': 32}]]),
         # large-field branches (field order >> 2^k) of the zero test / comparison
         ('sgn-64', 'int', {'l': 64}, (1, (1 << 63) - 1), [['ltc', ['r'], ['a'], {'c': 0}]]),
         ('eq-64', 'int', {'l': 64}, (5, 1 << 62), [['eqc', ['r'], ['a'], {'c': 7}]]),
@@ -1649,7 +1657,7 @@ class C18(Spec):
         out = []
         # mask length per (m, t): the masks are sums of binom(m, t) (PRSS) or t+1 terms, each bounded by 2^k / that number
         for (tpl, noprss, site, m_, t_), bits in sorted(by_cfg.items(), key=repr):
-            l_tpl = next((t[2].get('l') for t in self.TEMPLATES if t[0] == tpl and (t[1] in ('int', 'fxp') or t[2].get('kind') in ('int', 'fxp'))), None)
+            l_tpl = next((t[2].get('mask_l', t[2].get('l')) for t in self.TEMPLATES if t[0] == tpl and (t[1] in ('int', 'fxp') or t[2].get('kind') in ('int', 'fxp'))), None)
             nz = [b for b in bits if b > 1]
             if l_tpl is not None and len(nz) >= 10 and max(nz) < l_tpl + 30 - 5:
                 out.append(('invariant:mask-too-short',
@@ -1671,7 +1679,7 @@ class C18(Spec):
                             f'template {tpl} ({"no PRSS" if noprss else "PRSS"}), values opened at {site}: the two secret inputs give '
                             f'different distributions (KS={d:.3f} > {crit:.3f}, n={n0}+{n1})', None))
             nz = [b for b in bits if b > 1]
-            l_tpl = next((t[2].get('l') for t in self.TEMPLATES if t[0] == tpl and (t[1] in ('int', 'fxp') or t[2].get('kind') in ('int', 'fxp'))), None)
+            l_tpl = next((t[2].get('mask_l', t[2].get('l')) for t in self.TEMPLATES if t[0] == tpl and (t[1] in ('int', 'fxp') or t[2].get('kind') in ('int', 'fxp'))), None)
             if nz and l_tpl is not None and len(nz) >= 50 and max(nz) < l_tpl + 30 - 3:
                 # additive masks cover the l bits of the value plus k more; multiplicatively blinded values are
                 # uniform in a field of l+k+2 bits: either way the largest of >= 50 opened values has about l+k bits
